@@ -33,13 +33,20 @@ def configs(ctx):
             if L <= 12:
                 for hw in ((5, 8), (L + 1, 2 * L), (9, 9), (2, 7)):
                     items.append((2, mode, L, hw, min(J, 2), wl[:3]))
+    # one wavelet per axis (4-filter form): equal and different filter lengths
+    for mode in dwtlib.MODES5:
+        for (wc, wr) in (('db4', 'sym4'), ('db2', 'db3'), ('bior2.2', 'db3'), ('db1', 'db2')):
+            import pywt
+            Lc, Lr = pywt.Wavelet(wc).dec_len, pywt.Wavelet(wr).dec_len
+            for hw in ((2 * Lc + 4, 2 * Lr + 7), (3 * Lc + 1, 3 * Lr)):
+                items.append((4, mode, (Lc, Lr), hw, 2 if max(Lc, Lr) <= 6 else 1, ((wc, wr),)))
     return items, by
 
 
 def check(ctx):
     items, by = configs(ctx)
     findings, cmp_, diff, samples, counts = run_items(ctx, 'C02', [(dwtlib.w_compose, items)], min_cmp=100)
-    used = sorted({w for it in items for w in it[5]})
+    used = sorted({w if isinstance(w, str) else '/'.join(w) for it in items for w in it[5]})
     cov = {'obligations': cmp_, 'discharged': cmp_ - diff, 'samples': samples or [{'note': 'none'}],
            'wavelets': len(used), 'configurations': len(items),
            'checker_cmd': '/venv/bin/python -m pwa check C02 --tier %s' % ctx.tier,
